@@ -11,6 +11,7 @@ import (
 	"pgregory.net/rapid"
 
 	"verif/evid"
+	"verif/gen/hist"
 	"verif/gen/strs"
 	"verif/gen/tmpl"
 	"verif/oracle/htmltok"
@@ -659,6 +660,66 @@ func checkOrigin(c OriginCase) evid.Outcome {
 	return o
 }
 
+// ---------- sub-property "sets": marker locations in every output of an API history ----------
+
+type SetCase struct {
+	H hist.History `json:"history"`
+}
+
+func genSet(t *rapid.T) SetCase {
+	return SetCase{*hist.Gen(t, hist.Options{MaxOps: 10, BadMembers: rapid.Bool().Draw(t, "bad"), RuntimeBad: true, Unbalanced: true, Markers: true, ParseAfter: true, Clones: rapid.IntRange(0, 3).Draw(t, "clones") == 0})}
+}
+
+func checkSet(c SetCase) evid.Outcome {
+	o := evid.Outcome{}
+	results, r := hist.Run(&c.H, 0)
+	defer r.Close()
+	for i, op := range c.H.Ops {
+		if !hist.IsExec(op.Kind) || results[i].Nil || results[i].Panic != "" {
+			continue
+		}
+		if op.Data != nil && op.Data.Typ != "" {
+			continue // V is a trusted value in this call
+		}
+		if msg := locate(results[i].Out); msg != "" {
+			return evid.Viol("step %d %+v: %s\noutput (err=%q): %q\nhistory: %+v", i, op, msg, results[i].Err, results[i].Out, c.H.Ops)
+		}
+		if results[i].Err == "" && markerInAttrOrSpecial(results[i].Out) {
+			o.NonTrivial = true
+		}
+	}
+	// second pass: the same history with javascript: URLs as untrusted data (no markers, so that the scheme can form);
+	// the template pool has no static javascript: URL, so any javascript: URL attribute in an output is a violation
+	js := c.H
+	js.Ops = append([]hist.Op{}, c.H.Ops...)
+	for i, op := range js.Ops {
+		if op.Data == nil || op.Data.Typ != "" {
+			continue
+		}
+		d := *op.Data
+		d.U = evid.BStr(jsSpellings[(7+i)%len(jsSpellings)])
+		d.V = evid.BStr(jsSpellings[(7+2*i)%len(jsSpellings)])
+		js.Ops[i].Data = &d
+	}
+	res2, r2 := hist.Run(&js, 0)
+	defer r2.Close()
+	for i, op := range js.Ops {
+		if !hist.IsExec(op.Kind) || i >= len(res2) || res2[i].Nil || res2[i].Panic != "" || (op.Data != nil && op.Data.Typ != "") {
+			continue
+		}
+		tk := htmltok.Tokenize([]byte(res2[i].Out), htmltok.Options{})
+		for _, t := range tk.Tokens {
+			for _, a := range t.Attrs {
+				if msg := jsURL(t.Name, a); msg != "" {
+					return evid.Viol("step %d %+v (data U=%q V=%q): %s\noutput: %q\nhistory: %+v", i, op, op.Data.U, op.Data.V, msg, res2[i].Out, js.Ops)
+				}
+			}
+		}
+	}
+	return o
+}
+
+func TestPropSets(t *testing.T)     { evid.RunProp(t, "sets", 0.25, genSet, checkSet) }
 func TestPropOrigin(t *testing.T)   { evid.RunProp(t, "origin", 0.5, genOrigin, checkOrigin) }
 func TestPropLocation(t *testing.T) { evid.RunProp(t, "location", 1, genLoc, checkLoc) }
 func TestPropCode(t *testing.T)     { evid.RunProp(t, "code", 0.5, genCode, checkCode) }
@@ -693,5 +754,5 @@ func TestPropCodeAll(t *testing.T) {
 }
 
 func TestReplay(t *testing.T) {
-	evid.Replay(t, evid.R("location", checkLoc), evid.R("code", checkCode), evid.R("codeall", checkCode), evid.R("scheme", checkScheme), evid.R("origin", checkOrigin))
+	evid.Replay(t, evid.R("location", checkLoc), evid.R("code", checkCode), evid.R("codeall", checkCode), evid.R("scheme", checkScheme), evid.R("origin", checkOrigin), evid.R("sets", checkSet))
 }
